@@ -7,26 +7,6 @@ open Np
 
 namespace ApplyCal
 
-/-- the loop (append / extend on an accumulator) is name-wise expansion followed by concatenation -/
-theorem normaliseLoop_eq (streams : List String) : ∀ (req acc : List String),
-    normaliseLoop streams req acc
-      = (req.mapM (expandName streams)).map fun ls => acc ++ ls.flatten
-  | [], acc => by simp [normaliseLoop, Except.map, pure, Except.pure]
-  | p :: rest, acc => by
-    unfold normaliseLoop
-    rw [List.mapM_cons]
-    unfold expandName
-    split
-    · rw [normaliseLoop_eq streams rest]
-      cases rest.mapM (expandName streams) <;> simp [Except.map, bind, Except.bind, pure, Except.pure]
-    · split
-      · rw [normaliseLoop_eq streams rest]
-        cases rest.mapM (expandName streams) <;> simp [Except.map, bind, Except.bind, pure, Except.pure]
-      · split
-        · rw [normaliseLoop_eq streams rest]
-          cases rest.mapM (expandName streams) <;> simp [Except.map, bind, Except.bind, pure, Except.pure]
-        · simp [Except.map, bind, Except.bind]
-
 theorem expandName_error (streams : List String) (p : String) (e : Err)
     (h : expandName streams p = .error e) : e = .value := by
   unfold expandName at h
@@ -37,6 +17,37 @@ theorem expandName_error (streams : List String) (p : String) (e : Err)
     · split at h
       · simp at h
       · simp at h; exact h.symm
+
+theorem normaliseLoop_step (streams : List String) (p : String) (rest acc : List String) :
+    normaliseLoop streams (p :: rest) acc
+      = match expandName streams p with
+        | .ok l => normaliseLoop streams rest (acc ++ l)
+        | .error _ => .error .value := by
+  unfold expandName
+  rw [normaliseLoop]
+  split
+  · rfl
+  · split
+    · rfl
+    · split <;> rfl
+
+/-- the loop (append / extend on an accumulator) is name-wise expansion followed by concatenation -/
+theorem normaliseLoop_eq (streams : List String) : ∀ (req acc : List String),
+    normaliseLoop streams req acc
+      = (req.mapM (expandName streams)).map fun ls => acc ++ ls.flatten
+  | [], acc => by simp [normaliseLoop, Except.map, pure, Except.pure]
+  | p :: rest, acc => by
+    rw [normaliseLoop_step, List.mapM_cons]
+    cases hp : expandName streams p with
+    | error e =>
+      have := expandName_error streams p e hp
+      subst this
+      rfl
+    | ok l =>
+      simp only
+      rw [normaliseLoop_eq streams rest]
+      cases rest.mapM (expandName streams) <;>
+        simp [Except.map, bind, Except.bind, pure, Except.pure, List.append_assoc]
 
 /-- an unknown name anywhere in the request makes the whole request a `ValueError` -/
 theorem mapM_expand_error (streams : List String) : ∀ (req : List String),
